@@ -152,9 +152,9 @@ def note_known(ctx, names, devs):
 
 PLANS = {
     # property: (families quick, families thorough-extra, aspects judged)
-    "C01": (["flat", "nest1", "nest2", "nest3", "inline1", "inline2", "spread", "dups", "args", "ops"], [], {"data", "opchoice"}),
+    "C01": (["flat", "nest1", "nest2", "nest3", "inline1", "inline2", "spread", "dups", "args", "ops", "dirvars", "inputs"], [], {"data", "opchoice"}),
     "C06": (["fault0", "fault1", "faultnth"], ["fault2"], {"errors", "data"}),
-    "C09": (["dirs"], [], {"data", "calls"}),
+    "C09": (["dirs", "dirvars"], [], {"data", "calls"}),
     "C10": (["defect", "defectabs"], [], {"errors_cover", "calls", "data", "opchoice"}),
 }
 
@@ -191,7 +191,7 @@ def run_c11(ctx):
                 "ExecJudge.tla. non-trivial = session whose calls are not all identical; distinct by (document, call sequence, strategy)" % n)
 
 
-COMMON = ["flat", "nest1", "nest2", "nest3", "inline1", "inline2", "spread", "dups", "args", "ops", "inputs", "fault0", "fault1"]
+COMMON = ["flat", "nest1", "nest2", "nest3", "inline1", "inline2", "spread", "dups", "args", "ops", "inputs", "dirvars", "fault0", "fault1"]
 
 
 def run_c02(ctx):
